@@ -60,6 +60,12 @@ def run(ctx):
     for fr in cases:
         sc, line, s = observe(fr, [], "rf", 2)
         runs.append((fr, sc, line))
+    # close frames with every kind of reason also with per-fragment delivery on: that option concerns data frames only
+    for r in REASONS:
+        for code in (1000, 4999):
+            fr = server_frame(8, code.to_bytes(2, "big") + r)
+            sc, line, s = observe(fr, [], "rf", 2, fire=1)
+            runs.append((fr, sc, line))
     if ctx.spec:
         spec = ctx.spec.run_parallel(["specseq 1 " + hx(r[0]) for r in runs])
         for (fr, sc, line), sp in zip(runs, spec):
